@@ -433,6 +433,10 @@ def eigh(a):
 
 @eigh.register(FermionicArray)
 def eigh_fermionic(a):
+    if a.phases:
+        # the blocks themselves are decomposed: need actual phases inserted
+        a = a.phase_sync()
+
     eigenvalues, eigenvectors = eigh.dispatch(AbelianArray)(a)
 
     if not a.indices[1].dual:
